@@ -121,7 +121,8 @@ func (vc *VC) loopModifies(li *loopInfo) (heaps map[string]bool, ghosts map[stri
 			case *ssa.Convert:
 				allocs = true
 			case *ssa.MapUpdate:
-				heaps[vc.mapHeap(x.Map.Type())] = true
+				mh := vc.mapHeap(x.Map.Type())
+				heaps[mh+"_dom"], heaps[mh+"_val"], heaps[mh+"_size"] = true, true, true
 			case *ssa.Call:
 				allocs = true
 				c := x.Common()
@@ -368,7 +369,9 @@ func (vc *VC) enterLoop(li *loopInfo, b *ssa.BasicBlock, es []*edge, pc string, 
 			if f := vc.funcFrame(h, vc.heapGet(st, h), false); f != "" {
 				li.frameHeaps = append(li.frameHeaps, h)
 				vc.oblige("inv-entry", fmt.Sprintf("loop#%d:frame:%s", li.ord, h), pc, f, nil, b.Instrs[0].Pos(), "function frame holds on loop entry")
-				vc.assume(pc, vc.funcFrame(h, hst.heap[h], true))
+				if f2 := vc.funcFrame(h, hst.heap[h], true); f2 != "" {
+					vc.assume(pc, f2)
+				}
 			}
 		}
 	}
